@@ -1,5 +1,1032 @@
-//! C09 — not implemented yet.
+//! C09 — serialization round-trips at the advertised size; field encodings are unique.
+mod common;
+mod curves;
+
+use ark_ec::models::short_weierstrass::{Affine as SwAffine, Projective as SwProj, SWCurveConfig, SWFlags};
+use ark_ec::models::twisted_edwards::{Affine as TeAffine, Projective as TeProj, TECurveConfig, TEFlags};
+use ark_ec::{AdditiveGroup, CurveConfig};
+use ark_ff::fields::{Fp2, Fp2Config};
+use ark_ff::{Field, MontFp, One, PrimeField, Zero};
+use ark_serialize::{
+    CanonicalDeserialize, CanonicalDeserializeWithFlags, CanonicalSerialize, CanonicalSerializeWithFlags, Compress, EmptyFlags, Flags, Validate,
+};
+use common::*;
+use num_bigint::BigUint;
+use std::sync::{Arc, OnceLock};
+use vh_core::curve::*;
+use vh_core::engine::{Obs, PropSpec, Rel, Tape, Tier, R};
+use vh_core::modint::{big, pow2};
+use vh_core::tower::{edge_elem, Elem, OracleRepr, TowerOf};
+use vh_core::{ensure, ensure_eq, fail};
+
+const MODES: [(Compress, Validate, &str); 4] = [
+    (Compress::Yes, Validate::Yes, "compressed.checked"),
+    (Compress::Yes, Validate::No, "compressed.unchecked"),
+    (Compress::No, Validate::Yes, "uncompressed.checked"),
+    (Compress::No, Validate::No, "uncompressed.unchecked"),
+];
+
+fn cname(c: Compress) -> &'static str {
+    if c == Compress::Yes {
+        "compressed"
+    } else {
+        "uncompressed"
+    }
+}
+
+// ------------------------------------------------------------------------------------------
+// harness-defined quadratic extensions over moduli without spare bits (flags need an extra byte)
+// ------------------------------------------------------------------------------------------
+
+pub struct ZSecpFq2Cfg;
+impl Fp2Config for ZSecpFq2Cfg {
+    type Fp = vh_core::zoo::Secp256k1;
+    /// p = 3 mod 4: -1 is a non-residue
+    const NONRESIDUE: Self::Fp = MontFp!("-1");
+    const FROBENIUS_COEFF_FP2_C1: &'static [Self::Fp] = &[MontFp!("1"), MontFp!("-1")];
+}
+pub type ZSecpFq2 = Fp2<ZSecpFq2Cfg>;
+
+pub struct ZP64Fq2Cfg;
+impl Fp2Config for ZP64Fq2Cfg {
+    type Fp = vh_core::zoo::P64;
+    /// 2 generates the multiplicative group of F_p, p = 2^64 - 59
+    const NONRESIDUE: Self::Fp = MontFp!("2");
+    const FROBENIUS_COEFF_FP2_C1: &'static [Self::Fp] = &[MontFp!("1"), MontFp!("-1")];
+}
+pub type ZP64Fq2 = Fp2<ZP64Fq2Cfg>;
+
+// ------------------------------------------------------------------------------------------
+// field elements: round trip
+// ------------------------------------------------------------------------------------------
+
+fn rt_flags<F: OracleRepr, Fl: Flags>(v: &F, e: &Elem, fname: &str, t: &mut Tape<'_>) -> R {
+    let (valid, _) = flag_masks::<Fl>();
+    let m = valid[t.idx(valid.len())];
+    let f = Fl::from_u8(m).expect("valid mask");
+    let mut bytes = Vec::new();
+    if let Err(err) = v.serialize_with_flags(&mut bytes, f) {
+        return fail(format!("serialize_with_flags.err.{}", fname), format!("serialize_with_flags::<{}> failed: {:?}", fname, err));
+    }
+    let adv = v.serialized_size_with_flags::<Fl>();
+    ensure!(
+        bytes.len() == adv,
+        format!("size.with_flags.{}", fname),
+        "serialize_with_flags::<{}> wrote {} bytes, serialized_size_with_flags reports {}",
+        fname,
+        bytes.len(),
+        adv
+    );
+    match F::deserialize_with_flags::<_, Fl>(&bytes[..]) {
+        Ok((v2, f2)) => {
+            ensure!(
+                v2.to_o() == *e && v2.canonical(),
+                format!("roundtrip.with_flags.{}", fname),
+                "flags {}: bytes {} decode to a different value {:?}",
+                fname,
+                hex(&bytes),
+                v2.to_o()
+            );
+            ensure!(
+                f2.u8_bitmask() == m,
+                format!("roundtrip.flags.{}", fname),
+                "flags {}: wrote mask {:#04x}, read back {:#04x} (bytes {})",
+                fname,
+                m,
+                f2.u8_bitmask(),
+                hex(&bytes)
+            );
+        },
+        Err(err) => {
+            return fail(
+                format!("roundtrip.with_flags.err.{}", fname),
+                format!("flags {} mask {:#04x}: own encoding {} rejected: {:?}", fname, m, hex(&bytes), err),
+            )
+        },
+    }
+    Ok(())
+}
+
+fn field_roundtrip<F: OracleRepr>(tw: &TowerOf<F>, name: &str, t: &mut Tape<'_>, o: &mut Obs) -> R {
+    let (e, cls) = edge_elem(t, &tw.t, &tw.prime);
+    let v = F::from_o(&e);
+    let flat = tw.t.flatten(&e);
+    o.show(|| format!("{}: value {:x?} [{}]", name, flat, cls));
+    o.class(cls);
+    o.nt(!(v.is_zero() || v.is_one()));
+    o.evals(4 + 13);
+    for c in [Compress::Yes, Compress::No] {
+        let mut bytes = Vec::new();
+        if let Err(err) = v.serialize_with_mode(&mut bytes, c) {
+            return fail("serialize.err", format!("serialize_with_mode failed: {:?}", err));
+        }
+        ensure!(
+            bytes.len() == v.serialized_size(c),
+            "size.serialized_size",
+            "{} bytes written, serialized_size({}) = {}",
+            bytes.len(),
+            cname(c),
+            v.serialized_size(c)
+        );
+        let adv = if c == Compress::Yes { v.compressed_size() } else { v.uncompressed_size() };
+        ensure!(bytes.len() == adv, "size.advertised", "{} bytes written, {}_size() = {}", bytes.len(), cname(c), adv);
+        for val in [Validate::Yes, Validate::No] {
+            match F::deserialize_with_mode(&bytes[..], c, val) {
+                Ok(v2) => ensure!(
+                    v2.to_o() == e && v2.canonical(),
+                    "roundtrip.plain",
+                    "{} bytes {} decode to {:?}",
+                    cname(c),
+                    hex(&bytes),
+                    v2.to_o()
+                ),
+                Err(err) => return fail("roundtrip.plain.err", format!("own encoding {} rejected: {:?}", hex(&bytes), err)),
+            }
+        }
+    }
+    // the convenience entry points
+    {
+        let mut b1 = Vec::new();
+        v.serialize_compressed(&mut b1).map_err(|e| vh_core::Fail { sig: "serialize.err".into(), msg: format!("{:?}", e) })?;
+        let mut b2 = Vec::new();
+        v.serialize_uncompressed(&mut b2).map_err(|e| vh_core::Fail { sig: "serialize.err".into(), msg: format!("{:?}", e) })?;
+        let r = [
+            F::deserialize_compressed(&b1[..]),
+            F::deserialize_compressed_unchecked(&b1[..]),
+            F::deserialize_uncompressed(&b2[..]),
+            F::deserialize_uncompressed_unchecked(&b2[..]),
+        ];
+        for x in r {
+            match x {
+                Ok(v2) => ensure!(v2.to_o() == e, "roundtrip.convenience", "convenience wrappers decode to {:?}", v2.to_o()),
+                Err(err) => return fail("roundtrip.convenience.err", format!("{:?}", err)),
+            }
+        }
+    }
+    rt_flags::<F, EmptyFlags>(&v, &e, "EmptyFlags", t)?;
+    rt_flags::<F, SWFlags>(&v, &e, "SWFlags", t)?;
+    rt_flags::<F, TEFlags>(&v, &e, "TEFlags", t)?;
+    rt_flags::<F, HF<1>>(&v, &e, "H1", t)?;
+    rt_flags::<F, HF<2>>(&v, &e, "H2", t)?;
+    rt_flags::<F, HF<3>>(&v, &e, "H3", t)?;
+    rt_flags::<F, HF<4>>(&v, &e, "H4", t)?;
+    rt_flags::<F, HF<5>>(&v, &e, "H5", t)?;
+    rt_flags::<F, HF<6>>(&v, &e, "H6", t)?;
+    rt_flags::<F, HF<7>>(&v, &e, "H7", t)?;
+    rt_flags::<F, HF<8>>(&v, &e, "H8", t)?;
+    rt_flags::<F, HR3>(&v, &e, "HR3", t)?;
+    Ok(())
+}
+
+// ------------------------------------------------------------------------------------------
+// field elements: uniqueness of the encoding
+// ------------------------------------------------------------------------------------------
+
+fn unique_with<F: OracleRepr, Fl: Flags>(tw: &TowerOf<F>, name: &str, fname: &'static str, t: &mut Tape<'_>, o: &mut Obs) -> R {
+    let bits = tw.prime.bits;
+    let p = &tw.prime.p;
+    let d = tw.t.degree();
+    let lay = field_layout(0, d, bits, Fl::BIT_SIZE);
+    let total = layout_len(&lay);
+    let adv = F::zero().serialized_size_with_flags::<Fl>();
+    ensure!(
+        adv == total,
+        "size.layout",
+        "serialized_size_with_flags::<{}> = {}, expected {} coefficients of {} bits + {} flag bits = {} bytes",
+        fname,
+        adv,
+        d,
+        bits,
+        Fl::BIT_SIZE,
+        total
+    );
+    let (valid, invalid) = flag_masks::<Fl>();
+    let (e, _) = edge_elem(t, &tw.t, &tw.prime);
+    let flat = tw.t.flatten(&e);
+    let m = valid[t.idx(valid.len())];
+    // valid encoding produced by the harness' own encoder
+    let mut enc = vec![0u8; total];
+    for (s, c) in lay.iter().zip(&flat) {
+        s.put(&mut enc, c);
+    }
+    enc[total - 1] |= m;
+    o.class(fname);
+
+    let j = t.idx(d);
+    let seg = &lay[j];
+    let area = seg.area_bits();
+    let room = pow2(area) - p; // number of integers in [p, 2^area)
+    let mut input = enc.clone();
+    let mut must_err = false;
+    let mut is_valid = false;
+    let label: &'static str;
+    let mut cls = t.weighted(&[2, 4, 3, 4, 2, 3, 3, 2, 1]);
+    if cls == 3 && area == bits {
+        cls = 1;
+    }
+    if cls == 4 && invalid.is_empty() {
+        cls = 2;
+    }
+    match cls {
+        0 => {
+            label = "valid";
+            is_valid = true;
+        },
+        1 => {
+            // v + k p, any k that fits
+            let v = &flat[j] % &room;
+            let kmax = ((pow2(area) - 1u32 - &v) / p).to_u64_digits().first().copied().unwrap_or(0).max(1);
+            let k = match t.below(3) {
+                0 => 1,
+                1 => kmax,
+                _ => 1 + t.below(kmax),
+            };
+            let n = &v + p * BigUint::from(k);
+            let n = if n.bits() as usize > area { &v + p } else { n };
+            seg.put(&mut input, &n);
+            must_err = true;
+            label = "plus-kp";
+        },
+        2 => {
+            // exactly p, p+1, p+2 (as far as they fit)
+            let dlt = BigUint::from(t.below(3)) % &room;
+            seg.put(&mut input, &(p + dlt));
+            must_err = true;
+            label = "exactly-p";
+        },
+        3 => {
+            // one unused high bit (between the modulus bits and the flag bits)
+            let pos = bits + t.idx(area - bits);
+            let n = seg.get(&input) | pow2(pos);
+            seg.put(&mut input, &n);
+            must_err = true;
+            label = if pos >= 64 * tw.prime.n { "stray-bit-in-extra-byte" } else { "unused-high-bit" };
+        },
+        4 => {
+            // a bit pattern that is not a flag value
+            let bad = invalid[t.idx(invalid.len())];
+            input[total - 1] = (input[total - 1] & !lay[d - 1].flag_mask()) | bad;
+            must_err = true;
+            label = "invalid-flag-pattern";
+        },
+        5 => {
+            input = t.bytes(total);
+            label = "uniform";
+        },
+        6 => {
+            // plausible: every integer below 2^bits, random flag bits
+            for s in &lay {
+                let n = big(&t.limbs(tw.prime.n)) % pow2(bits);
+                s.put(&mut input, &n);
+            }
+            if Fl::BIT_SIZE > 0 {
+                let fm = lay[d - 1].flag_mask();
+                input[total - 1] = (input[total - 1] & !fm) | (t.below(256) as u8 & fm);
+            }
+            label = "uniform-below-2^bits";
+        },
+        7 => {
+            let b = t.idx(8 * total);
+            input[b / 8] ^= 1 << (b % 8);
+            label = "bit-flip";
+        },
+        _ => {
+            let x = if t.bool() { 0xff } else { 0x00 };
+            input = vec![x; total];
+            label = "constant-bytes";
+        },
+    }
+    o.class(label);
+    o.nt(input != enc || !(F::from_o(&e).is_zero() || F::from_o(&e).is_one()));
+    o.show(|| format!("{} flags {}: class {} input {}", name, fname, label, hex(&input)));
+
+    match F::deserialize_with_flags::<_, Fl>(&input[..]) {
+        Ok((v2, f2)) => {
+            o.class("accepted");
+            ensure!(
+                !must_err,
+                format!("unique.accepted.{}", label),
+                "flags {}: non-canonical encoding {} ({}; valid encoding {}) accepted as {:?} with flag mask {:#04x}",
+                fname,
+                hex(&input),
+                label,
+                hex(&enc),
+                v2.to_o(),
+                f2.u8_bitmask()
+            );
+            ensure!(v2.canonical(), "unique.noncanonical-limbs", "decoded element has limbs >= p");
+            let mut out = Vec::new();
+            v2.serialize_with_flags(&mut out, f2).map_err(|e| vh_core::Fail { sig: "serialize_with_flags.err".into(), msg: format!("{:?}", e) })?;
+            ensure!(
+                out == input,
+                "unique.reserialize",
+                "flags {}: input {} accepted as {:?} (flag mask {:#04x}) but re-serializes to {}",
+                fname,
+                hex(&input),
+                v2.to_o(),
+                f2.u8_bitmask(),
+                hex(&out)
+            );
+            if is_valid {
+                ensure!(v2.to_o() == e && f2.u8_bitmask() == m, "unique.valid-decodes-differently", "valid encoding {} decodes to {:?}", hex(&enc), v2.to_o());
+            }
+        },
+        Err(err) => {
+            ensure!(!is_valid, "unique.valid-rejected", "flags {}: canonical encoding {} of {:x?} rejected: {:?}", fname, hex(&enc), flat, err);
+        },
+    }
+    if Fl::BIT_SIZE == 0 {
+        // the plain API
+        for (c, val, mn) in MODES {
+            match F::deserialize_with_mode(&input[..], c, val) {
+                Ok(v2) => {
+                    ensure!(!must_err, format!("unique.plain.accepted.{}", label), "{}: non-canonical encoding {} accepted as {:?}", mn, hex(&input), v2.to_o());
+                    let mut out = Vec::new();
+                    v2.serialize_with_mode(&mut out, c).map_err(|e| vh_core::Fail { sig: "serialize.err".into(), msg: format!("{:?}", e) })?;
+                    ensure!(out == input, "unique.plain.reserialize", "{}: input {} accepted as {:?} but re-serializes to {}", mn, hex(&input), v2.to_o(), hex(&out));
+                },
+                Err(err) => ensure!(!is_valid, "unique.plain.valid-rejected", "{}: canonical encoding {} rejected: {:?}", mn, hex(&enc), err),
+            }
+        }
+    }
+    Ok(())
+}
+
+fn field_unique<F: OracleRepr>(tw: &TowerOf<F>, name: &str, t: &mut Tape<'_>, o: &mut Obs) -> R {
+    match t.weighted(&[3, 3, 2, 1, 1, 1, 1, 1, 1, 1, 2, 1]) {
+        0 => unique_with::<F, EmptyFlags>(tw, name, "EmptyFlags", t, o),
+        1 => unique_with::<F, SWFlags>(tw, name, "SWFlags", t, o),
+        2 => unique_with::<F, TEFlags>(tw, name, "TEFlags", t, o),
+        3 => unique_with::<F, HF<1>>(tw, name, "H1", t, o),
+        4 => unique_with::<F, HF<2>>(tw, name, "H2", t, o),
+        5 => unique_with::<F, HF<3>>(tw, name, "H3", t, o),
+        6 => unique_with::<F, HF<4>>(tw, name, "H4", t, o),
+        7 => unique_with::<F, HF<5>>(tw, name, "H5", t, o),
+        8 => unique_with::<F, HF<6>>(tw, name, "H6", t, o),
+        9 => unique_with::<F, HF<7>>(tw, name, "H7", t, o),
+        10 => unique_with::<F, HF<8>>(tw, name, "H8", t, o),
+        _ => unique_with::<F, HR3>(tw, name, "HR3", t, o),
+    }
+}
+
+fn field_rels<F: OracleRepr>(out: &mut Vec<Rel>, name: &'static str, tier: Tier, weight: u32) {
+    let cell: Arc<OnceLock<TowerOf<F>>> = Arc::new(OnceLock::new());
+    let d = F::extension_degree() as usize;
+    let n = (F::BasePrimeField::MODULUS_BIT_SIZE as usize + 63) / 64;
+    let words = d * (2 * n + 8) + 40;
+    let q = |x: u32| (tier.pick(x, x * 20) / weight).max(60);
+    let c = cell.clone();
+    out.push(Rel::new(format!("roundtrip/{}", name), q(1200), words, move |t, o| field_roundtrip::<F>(c.get_or_init(TowerOf::<F>::new), name, t, o)));
+    let c = cell.clone();
+    out.push(Rel::new(format!("unique/{}", name), q(4000), words, move |t, o| field_unique::<F>(c.get_or_init(TowerOf::<F>::new), name, t, o)));
+}
+
+// ------------------------------------------------------------------------------------------
+// curve points
+// ------------------------------------------------------------------------------------------
+
+fn err_fail<T, E: std::fmt::Debug>(r: Result<T, E>, sig: &str) -> Result<T, vh_core::Fail> {
+    r.map_err(|e| vh_core::Fail { sig: sig.to_string(), msg: format!("{}: {:?}", sig, e) })
+}
+
+/// reference scalar multiplication: plain double-and-add over `double_in_place` / `+=`
+fn ref_mul<G: AdditiveGroup>(base: &G, k: &BigUint) -> G {
+    let mut r = G::zero();
+    for i in (0..k.bits()).rev() {
+        r.double_in_place();
+        if k.bit(i) {
+            r += base;
+        }
+    }
+    r
+}
+
+fn nonzero_elem<F: OracleRepr>(tw: &TowerOf<F>, t: &mut Tape<'_>) -> F {
+    match t.weighted(&[3, 1, 4]) {
+        0 => F::one(),
+        1 => F::from(2u64),
+        _ => {
+            let (e, _) = edge_elem(t, &tw.t, &tw.prime);
+            let x = F::from_o(&e);
+            if x.is_zero() {
+                F::from(3u64)
+            } else {
+                x
+            }
+        },
+    }
+}
+
+struct SwCtx<P: SWCurveConfig>
+where
+    P::BaseField: OracleRepr,
+{
+    tw: TowerOf<P::BaseField>,
+    /// points of the prime-order subgroup (multiples of the generator)
+    pool: Vec<Sw<P::BaseField>>,
+    /// named on-curve points with their subgroup membership: x = 0, y = 0 (2-torsion), points outside the subgroup
+    special: Vec<(Sw<P::BaseField>, bool, &'static str)>,
+    /// every point of the curve (toy curves only), with subgroup membership decided by the oracle law
+    all: Vec<(Sw<P::BaseField>, bool)>,
+}
+
+impl<P: SWCurveConfig> SwCtx<P>
+where
+    P::BaseField: OracleRepr,
+{
+    fn new(enumerate: bool) -> Self {
+        let tw = TowerOf::<P::BaseField>::new();
+        let (a, b) = (P::COEFF_A, P::COEFF_B);
+        let g = sw_from_affine::<P>(&P::GENERATOR);
+        assert!(sw_on_curve(&a, &b, &g), "generator not on curve");
+        let r = big(P::ScalarField::MODULUS.as_ref());
+        let h = big(P::COFACTOR);
+        // pool: k G for a few k, by the reference multiplication, decoded from raw Jacobian coordinates
+        let gp: SwProj<P> = sw_to_proj::<P>(&g, &P::BaseField::one(), &P::BaseField::one(), &P::BaseField::one());
+        let mut pool = vec![g];
+        for k in [2u64, 3, 5, 0xffff_ffff_ffff_fff1] {
+            pool.push(sw_from_proj::<P>(&ref_mul(&gp, &BigUint::from(k))));
+        }
+        pool.push(sw_from_proj::<P>(&ref_mul(&gp, &(&r - 1u32))));
+        pool.push(sw_from_proj::<P>(&ref_mul(&gp, &((&r - 1u32) >> 1))));
+        for q in &pool {
+            assert!(sw_on_curve(&a, &b, q));
+        }
+        let mut special: Vec<(Sw<P::BaseField>, bool, &'static str)> = Vec::new();
+        let cof1 = h.is_one();
+        // x = 0
+        if let Some(q) = SwAffine::<P>::get_point_from_x_unchecked(P::BaseField::zero(), false) {
+            let q = sw_from_affine::<P>(&q);
+            if sw_on_curve(&a, &b, &q) {
+                let insub = cof1 || ref_mul(&sw_to_proj::<P>(&q, &P::BaseField::one(), &P::BaseField::one(), &P::BaseField::one()), &r).is_zero();
+                special.push((q, insub, "x=0"));
+            }
+        }
+        // points from small x: outside the subgroup when the cofactor is not one (decided by reference multiplication)
+        let mut found = 0;
+        let mut raw: Vec<SwProj<P>> = Vec::new();
+        for xi in 1u64..40 {
+            if found >= 3 {
+                break;
+            }
+            if let Some(q) = SwAffine::<P>::get_point_from_x_unchecked(P::BaseField::from(xi), xi % 2 == 0) {
+                let s = sw_from_affine::<P>(&q);
+                if !sw_on_curve(&a, &b, &s) {
+                    continue;
+                }
+                let qp = sw_to_proj::<P>(&s, &P::BaseField::one(), &P::BaseField::one(), &P::BaseField::one());
+                let insub = cof1 || ref_mul(&qp, &r).is_zero();
+                special.push((s, insub, if insub { "from-small-x" } else { "outside-subgroup" }));
+                raw.push(qp);
+                found += 1;
+            }
+        }
+        // a point of order two (y = 0): (h r / 2) R for the points found above
+        if !enumerate && !cof1 && !h.bit(0) {
+            let e = (&h >> 1) * &r;
+            for qp in &raw {
+                let tt = sw_from_proj::<P>(&ref_mul(qp, &e));
+                if let Sw::Aff(_, y) = tt {
+                    if y.is_zero() && sw_on_curve(&a, &b, &tt) {
+                        special.push((tt, false, "y=0"));
+                        break;
+                    }
+                }
+            }
+        }
+        let mut all = Vec::new();
+        if enumerate {
+            let pts = enumerate_sw::<P>();
+            for q in pts {
+                let insub = sw_mul(&a, &q, &r) == Sw::Inf;
+                if let Sw::Aff(x, y) = q {
+                    if y.is_zero() {
+                        special.push((q, insub, "y=0"));
+                    } else if x.is_zero() && !special.iter().any(|s| s.0 == q) {
+                        special.push((q, insub, "x=0"));
+                    }
+                }
+                all.push((q, insub));
+            }
+        }
+        SwCtx { tw, pool, special, all }
+    }
+}
+
+/// all points of a toy curve over a prime field (brute force over x, y through the generic `Field` API)
+fn enumerate_sw<P: SWCurveConfig>() -> Vec<Sw<P::BaseField>> {
+    let p = big(P::BaseField::characteristic());
+    let p: u64 = p.to_u64_digits()[0];
+    assert!(P::BaseField::extension_degree() == 1 && p < (1 << 16));
+    let (a, b) = (P::COEFF_A, P::COEFF_B);
+    let mut out = vec![Sw::Inf];
+    // squares table
+    let mut roots: std::collections::BTreeMap<Vec<u64>, Vec<P::BaseField>> = std::collections::BTreeMap::new();
+    let key = |x: &P::BaseField| -> Vec<u64> { x.to_base_prime_field_elements().map(|c| c.into_bigint().as_ref()[0]).collect() };
+    for yi in 0..p {
+        let y = P::BaseField::from(yi);
+        roots.entry(key(&y.square())).or_default().push(y);
+    }
+    for xi in 0..p {
+        let x = P::BaseField::from(xi);
+        let rhs = x.square() * x + a * x + b;
+        if let Some(ys) = roots.get(&key(&rhs)) {
+            for y in ys {
+                out.push(Sw::Aff(x, *y));
+            }
+        }
+    }
+    out
+}
+
+fn sw_check_point<P: SWCurveConfig>(pt: &Sw<P::BaseField>, insub: bool, lam: &P::BaseField, idx: &P::BaseField, idy: &P::BaseField) -> R
+where
+    P::BaseField: OracleRepr,
+{
+    let aff: SwAffine<P> = sw_to_affine::<P>(pt);
+    let proj: SwProj<P> = sw_to_proj::<P>(pt, lam, idx, idy);
+    for c in [Compress::Yes, Compress::No] {
+        let mut ba = Vec::new();
+        err_fail(aff.serialize_with_mode(&mut ba, c), "serialize.affine.err")?;
+        let mut bp = Vec::new();
+        err_fail(proj.serialize_with_mode(&mut bp, c), "serialize.projective.err")?;
+        let adv_a = if c == Compress::Yes { aff.compressed_size() } else { aff.uncompressed_size() };
+        let adv_p = if c == Compress::Yes { proj.compressed_size() } else { proj.uncompressed_size() };
+        ensure!(
+            ba.len() == aff.serialized_size(c) && ba.len() == adv_a,
+            format!("size.affine.{}", cname(c)),
+            "affine: {} bytes written, serialized_size = {}, {}_size() = {}",
+            ba.len(),
+            aff.serialized_size(c),
+            cname(c),
+            adv_a
+        );
+        ensure!(
+            bp.len() == proj.serialized_size(c) && bp.len() == adv_p,
+            format!("size.projective.{}", cname(c)),
+            "projective: {} bytes written, serialized_size = {}, {}_size() = {}",
+            bp.len(),
+            proj.serialized_size(c),
+            cname(c),
+            adv_p
+        );
+        for v in [Validate::Yes, Validate::No] {
+            if v == Validate::Yes && !insub {
+                continue;
+            }
+            let mn = format!("{}.{}", cname(c), if v == Validate::Yes { "checked" } else { "unchecked" });
+            match SwAffine::<P>::deserialize_with_mode(&ba[..], c, v) {
+                Ok(q) => ensure!(
+                    sw_from_affine::<P>(&q) == *pt,
+                    format!("roundtrip.affine.{}", mn),
+                    "affine {:?} -> {} -> {:?}",
+                    pt,
+                    hex(&ba),
+                    sw_from_affine::<P>(&q)
+                ),
+                Err(e) => return fail(format!("roundtrip.affine.err.{}", mn), format!("affine {:?} -> {} -> {:?}", pt, hex(&ba), e)),
+            }
+            match SwProj::<P>::deserialize_with_mode(&bp[..], c, v) {
+                Ok(q) => ensure!(
+                    sw_from_proj::<P>(&q) == *pt,
+                    format!("roundtrip.projective.{}", mn),
+                    "projective {:?} (lambda {:?}) -> {} -> {:?}",
+                    pt,
+                    lam,
+                    hex(&bp),
+                    sw_from_proj::<P>(&q)
+                ),
+                Err(e) => return fail(format!("roundtrip.projective.err.{}", mn), format!("projective {:?} -> {} -> {:?}", pt, hex(&bp), e)),
+            }
+        }
+    }
+    Ok(())
+}
+
+fn sw_roundtrip<P: SWCurveConfig>(cx: &SwCtx<P>, name: &str, t: &mut Tape<'_>, o: &mut Obs) -> R
+where
+    P::BaseField: OracleRepr,
+{
+    let a = P::COEFF_A;
+    let g = cx.pool[0];
+    let (mut pt, mut insub, cls): (Sw<P::BaseField>, bool, &'static str) = match t.weighted(&[1, 1, 5, 3, 3]) {
+        0 => (Sw::Inf, true, "identity"),
+        1 => (g, true, "generator"),
+        2 => {
+            // sum of two pool points by the oracle law
+            let i = t.idx(cx.pool.len());
+            let j = t.idx(cx.pool.len());
+            let s = sw_add(&a, &cx.pool[i], &cx.pool[j]);
+            (s, true, "subgroup")
+        },
+        3 => {
+            // point decompressed from an edge-biased x (first of x, x+1, ... that has a root)
+            let (e, _) = edge_elem(t, &cx.tw.t, &cx.tw.prime);
+            let mut x = P::BaseField::from_o(&e);
+            let greatest = t.bool();
+            let mut r = None;
+            for _ in 0..24 {
+                if let Some(q) = SwAffine::<P>::get_point_from_x_unchecked(x, greatest) {
+                    r = Some(sw_from_affine::<P>(&q));
+                    break;
+                }
+                x += P::BaseField::one();
+            }
+            match r {
+                Some(q) if sw_on_curve(&a, &P::COEFF_B, &q) => (q, P::cofactor_is_one(), "from-x"),
+                _ => (g, true, "generator"),
+            }
+        },
+        _ => {
+            if cx.special.is_empty() {
+                (sw_neg(&g), true, "subgroup")
+            } else {
+                cx.special[t.idx(cx.special.len())]
+            }
+        },
+    };
+    if t.bool() {
+        pt = sw_neg(&pt);
+    }
+    if pt == Sw::Inf {
+        insub = true;
+    }
+    let lam = nonzero_elem(&cx.tw, t);
+    let idx = nonzero_elem(&cx.tw, t);
+    let idy = nonzero_elem(&cx.tw, t);
+    o.class(cls);
+    o.class_if(!lam.is_one(), "projective-Z!=1");
+    o.class_if(insub, "in-subgroup");
+    o.nt(pt != Sw::Inf && pt != g);
+    o.show(|| format!("{}: {} {:?} insub={} lambda={:?}", name, cls, pt, insub, lam));
+    o.evals(if insub { 8 } else { 4 });
+    sw_check_point::<P>(&pt, insub, &lam, &idx, &idy)
+}
+
+/// exhaustive over a toy curve: tape = [point index, representation]
+fn sw_all<P: SWCurveConfig>(cx: &SwCtx<P>, name: &str, t: &mut Tape<'_>, o: &mut Obs) -> R
+where
+    P::BaseField: OracleRepr,
+{
+    let i = t.idx(cx.all.len());
+    let (pt, insub) = cx.all[i];
+    let lam = match t.below(3) {
+        0 => P::BaseField::one(),
+        1 => P::BaseField::from(2u64),
+        _ => P::BaseField::from(7u64 + i as u64),
+    };
+    let lam = if lam.is_zero() { P::BaseField::from(5u64) } else { lam };
+    o.nt(pt != Sw::Inf && pt != cx.pool[0]);
+    o.class_if(insub, "in-subgroup");
+    o.class_if(matches!(pt, Sw::Aff(_, y) if y.is_zero()), "y=0");
+    o.class_if(matches!(pt, Sw::Aff(x, _) if x.is_zero()), "x=0");
+    o.show(|| format!("{}: point #{} {:?} insub={} lambda={:?}", name, i, pt, insub, lam));
+    o.evals(if insub { 8 } else { 4 });
+    sw_check_point::<P>(&pt, insub, &lam, &P::BaseField::from(3u64), &lam)
+}
+
+fn sw_rels<P: SWCurveConfig>(out: &mut Vec<Rel>, name: &'static str, tier: Tier, weight: u32, toy: bool)
+where
+    P::BaseField: OracleRepr,
+{
+    let cell: Arc<OnceLock<SwCtx<P>>> = Arc::new(OnceLock::new());
+    let d = P::BaseField::extension_degree() as usize;
+    let n = (<P::BaseField as Field>::BasePrimeField::MODULUS_BIT_SIZE as usize + 63) / 64;
+    let words = 4 * d * (2 * n + 8) + 40;
+    let cases = (tier.pick(900u32, 18000) / weight).max(24);
+    let c = cell.clone();
+    out.push(Rel::new(format!("point/{}", name), cases, words, move |t, o| sw_roundtrip::<P>(c.get_or_init(|| SwCtx::<P>::new(toy)), name, t, o)));
+    if toy {
+        let c = cell.clone();
+        let c2 = cell.clone();
+        out.push(
+            Rel::new(format!("all-points/{}", name), 0, 2, move |t, o| sw_all::<P>(c.get_or_init(|| SwCtx::<P>::new(true)), name, t, o)).exhaustive(move || {
+                let n = c2.get_or_init(|| SwCtx::<P>::new(true)).all.len() as u64;
+                Box::new((0..n).flat_map(|i| (0..3u64).map(move |l| vec![i, l])))
+            }),
+        );
+    }
+}
+
+// ---- twisted Edwards ----
+
+struct TeCtx<P: TECurveConfig>
+where
+    P::BaseField: OracleRepr,
+{
+    tw: TowerOf<P::BaseField>,
+    pool: Vec<Te<P::BaseField>>,
+    special: Vec<(Te<P::BaseField>, bool, &'static str)>,
+    all: Vec<(Te<P::BaseField>, bool)>,
+}
+
+fn te_lift<P: TECurveConfig>(q: &Te<P::BaseField>) -> TeProj<P> {
+    te_to_proj::<P>(q, &P::BaseField::one())
+}
+
+fn te_decode<P: TECurveConfig>(q: &TeProj<P>) -> Te<P::BaseField> {
+    te_from_proj::<P>(q).expect("Z != 0").0
+}
+
+impl<P: TECurveConfig> TeCtx<P>
+where
+    P::BaseField: OracleRepr,
+{
+    fn new(enumerate: bool) -> Self {
+        let tw = TowerOf::<P::BaseField>::new();
+        let (a, d) = (<P as TECurveConfig>::COEFF_A, <P as TECurveConfig>::COEFF_D);
+        let g = te_from_affine::<P>(&<P as TECurveConfig>::GENERATOR);
+        assert!(te_on_curve(&a, &d, &g));
+        let r = big(P::ScalarField::MODULUS.as_ref());
+        let gp = te_lift::<P>(&g);
+        let mut pool = vec![g];
+        for k in [2u64, 3, 5, 0xffff_ffff_ffff_fff1] {
+            pool.push(te_decode::<P>(&ref_mul(&gp, &BigUint::from(k))));
+        }
+        pool.push(te_decode::<P>(&ref_mul(&gp, &(&r - 1u32))));
+        pool.push(te_decode::<P>(&ref_mul(&gp, &((&r - 1u32) >> 1))));
+        for q in &pool {
+            assert!(te_on_curve(&a, &d, q));
+        }
+        let one = P::BaseField::one();
+        let mut special: Vec<(Te<P::BaseField>, bool, &'static str)> = vec![(Te(P::BaseField::zero(), -one), false, "x=0,y=-1")];
+        // y = 0: x^2 = 1/a
+        if let Some(x) = a.inverse().and_then(|ai| ai.sqrt()) {
+            let q = Te(x, P::BaseField::zero());
+            if te_on_curve(&a, &d, &q) {
+                special.push((q, false, "y=0"));
+                special.push((Te(-x, P::BaseField::zero()), false, "y=0"));
+            }
+        }
+        if !enumerate {
+            let mut found = 0;
+            for yi in 2u64..40 {
+                if found >= 3 {
+                    break;
+                }
+                if let Some(q) = TeAffine::<P>::get_point_from_y_unchecked(P::BaseField::from(yi), yi % 2 == 0) {
+                    let s = te_from_affine::<P>(&q);
+                    if !te_on_curve(&a, &d, &s) {
+                        continue;
+                    }
+                    // membership by the oracle law where it is defined; an exceptional addition means "unknown": use unchecked modes only
+                    let insub = matches!(te_mul(&a, &d, &s, &r), Some(z) if z == te_identity());
+                    special.push((s, insub, if insub { "from-small-y" } else { "outside-subgroup" }));
+                    found += 1;
+                }
+            }
+        }
+        let mut all = Vec::new();
+        if enumerate {
+            let p: u64 = big(P::BaseField::characteristic()).to_u64_digits()[0];
+            assert!(P::BaseField::extension_degree() == 1 && p < (1 << 16));
+            for xi in 0..p {
+                let x = P::BaseField::from(xi);
+                for yi in 0..p {
+                    let q = Te(x, P::BaseField::from(yi));
+                    if te_on_curve(&a, &d, &q) {
+                        let insub = matches!(te_mul(&a, &d, &q, &r), Some(z) if z == te_identity());
+                        all.push((q, insub));
+                    }
+                }
+            }
+        }
+        TeCtx { tw, pool, special, all }
+    }
+}
+
+fn te_check_point<P: TECurveConfig>(pt: &Te<P::BaseField>, insub: bool, lam: &P::BaseField) -> R
+where
+    P::BaseField: OracleRepr,
+{
+    let aff: TeAffine<P> = te_to_affine::<P>(pt);
+    let proj: TeProj<P> = te_to_proj::<P>(pt, lam);
+    for c in [Compress::Yes, Compress::No] {
+        let mut ba = Vec::new();
+        err_fail(aff.serialize_with_mode(&mut ba, c), "serialize.affine.err")?;
+        let mut bp = Vec::new();
+        err_fail(proj.serialize_with_mode(&mut bp, c), "serialize.projective.err")?;
+        let adv_a = if c == Compress::Yes { aff.compressed_size() } else { aff.uncompressed_size() };
+        let adv_p = if c == Compress::Yes { proj.compressed_size() } else { proj.uncompressed_size() };
+        ensure!(
+            ba.len() == aff.serialized_size(c) && ba.len() == adv_a,
+            format!("size.affine.{}", cname(c)),
+            "affine: {} bytes written, serialized_size = {}, {}_size() = {}",
+            ba.len(),
+            aff.serialized_size(c),
+            cname(c),
+            adv_a
+        );
+        ensure!(
+            bp.len() == proj.serialized_size(c) && bp.len() == adv_p,
+            format!("size.projective.{}", cname(c)),
+            "projective: {} bytes written, serialized_size = {}, {}_size() = {}",
+            bp.len(),
+            proj.serialized_size(c),
+            cname(c),
+            adv_p
+        );
+        for v in [Validate::Yes, Validate::No] {
+            if v == Validate::Yes && !insub {
+                continue;
+            }
+            let mn = format!("{}.{}", cname(c), if v == Validate::Yes { "checked" } else { "unchecked" });
+            match TeAffine::<P>::deserialize_with_mode(&ba[..], c, v) {
+                Ok(q) => ensure!(
+                    te_from_affine::<P>(&q) == *pt,
+                    format!("roundtrip.affine.{}", mn),
+                    "affine {:?} -> {} -> {:?}",
+                    pt,
+                    hex(&ba),
+                    te_from_affine::<P>(&q)
+                ),
+                Err(e) => return fail(format!("roundtrip.affine.err.{}", mn), format!("affine {:?} -> {} -> {:?}", pt, hex(&ba), e)),
+            }
+            match TeProj::<P>::deserialize_with_mode(&bp[..], c, v) {
+                Ok(q) => {
+                    let dec = te_from_proj::<P>(&q);
+                    ensure!(
+                        matches!(dec, Some((z, true)) if z == *pt),
+                        format!("roundtrip.projective.{}", mn),
+                        "projective {:?} (lambda {:?}) -> {} -> {:?}",
+                        pt,
+                        lam,
+                        hex(&bp),
+                        dec
+                    )
+                },
+                Err(e) => return fail(format!("roundtrip.projective.err.{}", mn), format!("projective {:?} -> {} -> {:?}", pt, hex(&bp), e)),
+            }
+        }
+    }
+    Ok(())
+}
+
+fn te_roundtrip<P: TECurveConfig>(cx: &TeCtx<P>, name: &str, t: &mut Tape<'_>, o: &mut Obs) -> R
+where
+    P::BaseField: OracleRepr,
+{
+    let (a, d) = (<P as TECurveConfig>::COEFF_A, <P as TECurveConfig>::COEFF_D);
+    let g = cx.pool[0];
+    let (mut pt, mut insub, cls): (Te<P::BaseField>, bool, &'static str) = match t.weighted(&[1, 1, 5, 3, 3]) {
+        0 => (te_identity(), true, "identity"),
+        1 => (g, true, "generator"),
+        2 => {
+            let i = t.idx(cx.pool.len());
+            let j = t.idx(cx.pool.len());
+            match te_add(&a, &d, &cx.pool[i], &cx.pool[j]) {
+                Some(s) => (s, true, "subgroup"),
+                None => (g, true, "generator"),
+            }
+        },
+        3 => {
+            let (e, _) = edge_elem(t, &cx.tw.t, &cx.tw.prime);
+            let mut y = P::BaseField::from_o(&e);
+            let greatest = t.bool();
+            let mut r = None;
+            for _ in 0..24 {
+                if let Some(q) = TeAffine::<P>::get_point_from_y_unchecked(y, greatest) {
+                    r = Some(te_from_affine::<P>(&q));
+                    break;
+                }
+                y += P::BaseField::one();
+            }
+            match r {
+                Some(q) if te_on_curve(&a, &d, &q) => (q, false, "from-y"),
+                _ => (g, true, "generator"),
+            }
+        },
+        _ => cx.special[t.idx(cx.special.len())],
+    };
+    if t.bool() {
+        pt = te_neg(&pt);
+    }
+    if pt == te_identity() {
+        insub = true;
+    }
+    let lam = nonzero_elem(&cx.tw, t);
+    o.class(cls);
+    o.class_if(!lam.is_one(), "projective-Z!=1");
+    o.class_if(insub, "in-subgroup");
+    o.class_if(pt.0.is_zero(), "x=0");
+    o.nt(pt != te_identity() && pt != g);
+    o.show(|| format!("{}: {} {:?} insub={} lambda={:?}", name, cls, pt, insub, lam));
+    o.evals(if insub { 8 } else { 4 });
+    te_check_point::<P>(&pt, insub, &lam)
+}
+
+fn te_all<P: TECurveConfig>(cx: &TeCtx<P>, name: &str, t: &mut Tape<'_>, o: &mut Obs) -> R
+where
+    P::BaseField: OracleRepr,
+{
+    let i = t.idx(cx.all.len());
+    let (pt, insub) = cx.all[i];
+    let lam = match t.below(3) {
+        0 => P::BaseField::one(),
+        1 => P::BaseField::from(2u64),
+        _ => P::BaseField::from(7u64 + i as u64),
+    };
+    let lam = if lam.is_zero() { P::BaseField::from(5u64) } else { lam };
+    o.nt(pt != te_identity() && pt != cx.pool[0]);
+    o.class_if(insub, "in-subgroup");
+    o.class_if(pt.0.is_zero(), "x=0");
+    o.class_if(pt.1.is_zero(), "y=0");
+    o.show(|| format!("{}: point #{} {:?} insub={} lambda={:?}", name, i, pt, insub, lam));
+    o.evals(if insub { 8 } else { 4 });
+    te_check_point::<P>(&pt, insub, &lam)
+}
+
+fn te_rels<P: TECurveConfig>(out: &mut Vec<Rel>, name: &'static str, tier: Tier, weight: u32, toy: bool)
+where
+    P::BaseField: OracleRepr,
+{
+    let cell: Arc<OnceLock<TeCtx<P>>> = Arc::new(OnceLock::new());
+    let d = P::BaseField::extension_degree() as usize;
+    let n = (<P::BaseField as Field>::BasePrimeField::MODULUS_BIT_SIZE as usize + 63) / 64;
+    let words = 2 * d * (2 * n + 8) + 40;
+    let cases = (tier.pick(900u32, 18000) / weight).max(24);
+    let c = cell.clone();
+    out.push(Rel::new(format!("point/{}", name), cases, words, move |t, o| te_roundtrip::<P>(c.get_or_init(|| TeCtx::<P>::new(toy)), name, t, o)));
+    if toy {
+        let c = cell.clone();
+        let c2 = cell.clone();
+        out.push(
+            Rel::new(format!("all-points/{}", name), 0, 2, move |t, o| te_all::<P>(c.get_or_init(|| TeCtx::<P>::new(true)), name, t, o)).exhaustive(move || {
+                let n = c2.get_or_init(|| TeCtx::<P>::new(true)).all.len() as u64;
+                Box::new((0..n).flat_map(|i| (0..3u64).map(move |l| vec![i, l])))
+            }),
+        );
+    }
+}
+
+// ------------------------------------------------------------------------------------------
+
+fn relations(tier: Tier) -> Vec<Rel> {
+    let mut out = Vec::new();
+    macro_rules! zf {
+        ($($n:ident),*) => { $( field_rels::<vh_core::zoo::$n>(&mut out, concat!("zoo.", stringify!($n)), tier, 1); )* };
+    }
+    // moduli with 0..7 spare bits in the top byte, 1..13 limbs; 64N-bit moduli need an extra byte for any flag
+    zf!(T3, T7, T17, T251, T65537, M31, M61, P62, P64, Gold, P65, P126, M127, P128, P129, P192, P193, P250, C25519, Secp256k1, P256m189);
+    zf!(B5, N5, B6, N6, B8, B9, B10, B11, N13, H1n, H4n);
+    macro_rules! tower {
+        ($ty:ty, $name:expr, $w:expr) => {
+            field_rels::<$ty>(&mut out, $name, tier, $w);
+        };
+    }
+    tower!(ZSecpFq2, "harness.Fp2(secp256k1 modulus)", 2);
+    tower!(ZP64Fq2, "harness.Fp2(2^64-59)", 1);
+    tower!(ark_bls12_381::Fq2, "bls12_381.Fq2", 2);
+    tower!(ark_bls12_381::Fq6, "bls12_381.Fq6", 6);
+    tower!(ark_bls12_381::Fq12, "bls12_381.Fq12", 12);
+    tower!(ark_bn254::Fq2, "bn254.Fq2", 2);
+    tower!(ark_bn254::Fq12, "bn254.Fq12", 12);
+    tower!(ark_mnt4_298::Fq2, "mnt4_298.Fq2", 2);
+    tower!(ark_mnt4_298::Fq4, "mnt4_298.Fq4", 4);
+    tower!(ark_mnt6_298::Fq3, "mnt6_298.Fq3", 3);
+    tower!(ark_mnt6_298::Fq6, "mnt6_298.Fq6", 6);
+    tower!(ark_bw6_761::Fq3, "bw6_761.Fq3", 6);
+    tower!(ark_bw6_761::Fq6, "bw6_761.Fq6", 12);
+    tower!(ark_mnt4_753::Fq4, "mnt4_753.Fq4", 8);
+    tower!(ark_secp256k1::Fq, "secp256k1.Fq", 1);
+    tower!(ark_bls12_381::Fq, "bls12_381.Fq", 1);
+
+    macro_rules! sw {
+        ($cfg:ty, $name:expr, $z:expr, $w:expr) => {
+            sw_rels::<$cfg>(&mut out, $name, tier, $w, false);
+        };
+    }
+    for_each_shipped_sw!(sw);
+    macro_rules! te {
+        ($cfg:ty, $name:expr, $z:expr, $w:expr) => {
+            te_rels::<$cfg>(&mut out, $name, tier, $w, false);
+        };
+    }
+    for_each_shipped_te!(te);
+    macro_rules! toysw {
+        ($cfg:ty, $name:expr, $p:expr, $a:expr, $b:expr, $h:expr, $r:expr, $big:expr) => {
+            sw_rels::<$cfg>(&mut out, concat!("toy.", $name), tier, 1, true);
+        };
+    }
+    vh_core::for_each_toy_sw!(toysw);
+    macro_rules! toyte {
+        ($cfg:ty, $name:expr, $p:expr, $a:expr, $d:expr, $h:expr, $r:expr, $complete:expr, $big:expr) => {
+            te_rels::<$cfg>(&mut out, concat!("toy.", $name), tier, 1, true);
+        };
+    }
+    vh_core::for_each_toy_te!(toyte);
+    out
+}
+
 fn main() {
-    eprintln!("C09: check not implemented");
-    std::process::exit(2);
+    vh_core::engine::main(PropSpec {
+        id: "C09",
+        rule: "Field values come from the edge-biased tower generator (0, 1, p-1, (p±1)/2, R, 2^k±1, edge limbs, uniform; sparse/dense extension elements) over 32 zoo prime fields (0..7 spare bits in the top byte, 1..13 limbs, ten moduli of exactly 8k bits), 14 towers (two harness Fp2 over moduli without spare bits) and are (de)serialized with EmptyFlags, SWFlags, TEFlags, harness flags of 1..8 bits and a restrictive 3-bit flag type. Curve points: identity, generator, sums of multiples of G, points decompressed from edge x (resp. y), x=0 / y=0 / 2-torsion / out-of-subgroup points, affine and projective with Z != 1, on 32 shipped SW and 10 shipped TE configurations; every point of 9+6 toy curves x 3 representations exhaustively. Uniqueness inputs are derived from an encoding produced by the harness' own encoder: + k p, exactly p, one unused high bit, stray bits in the extra flag byte, invalid flag pattern, bit flip, uniform bytes. Oracles: decode(encode(v)) == v through raw coordinates in all four modes (checked modes only for points known to be in the subgroup), len == serialized_size == (un)compressed_size, flags returned; Ok((v,f)) => serialize_with_flags(v,f) == input byte for byte. Non-trivial: value not in {0, 1, identity, generator}, or an input that differs from the valid encoding; distinct = distinct decoded choice sequences.",
+        assumptions: &[
+            "the byte layout used to build mutated inputs (little-endian coefficients of ceil(bits/8) bytes, the last one of ceil((bits+flag bits)/8) bytes with the flags in its top bits) is the documented one; a mismatch with serialized_size_with_flags is reported as size.layout",
+            "points used in checked modes are multiples of the generator computed with a reference double-and-add over Projective::double_in_place/+= (C03's subject)",
+            "curve-level uniqueness is not part of the property (compressed infinity with non-zero x, sign flag of a 2-torsion point)",
+        ],
+        relations,
+    })
 }
